@@ -938,29 +938,53 @@ def _mentioned_locals(j, out):
 
 
 def mentioned_later(fn):
-    """block -> locals named directly by some statement/terminator of the block or of a block reachable from it"""
+    """block -> locals that are live on entry to the block: read (named by a statement or terminator other than as the
+    plain left-hand side of an assignment / the plain destination of a call) on some path from the block before they are
+    assigned afresh. Knowledge about any other local cannot influence what follows."""
     c = getattr(fn, "_mentioned_later", None)
     if c is not None:
         return c
-    own = {}
+    use, kill = {}, {}
     for b in fn.reachable():
         blk = fn.blocks[b]
-        m = set()
+        u, k = set(), set()
+        def reads(j):
+            m = set()
+            _mentioned_locals(j, m)
+            for x in m:
+                if x not in k:
+                    u.add(x)
         for st in blk.stmts:
-            _mentioned_locals(st.j, m)
-        _mentioned_locals(blk.term.j, m)
-        own[b] = m
-    live = {b: set(m) for b, m in own.items()}
+            j = st.j
+            if j.get("k") == "assign" and isinstance(j.get("lhs"), dict):
+                reads(j.get("rv"))
+                lhs = j["lhs"]
+                if lhs.get("p"):
+                    reads(lhs)
+                else:
+                    k.add(lhs.get("l"))
+            else:
+                reads(j)
+        tj = blk.term.j
+        dest = tj.get("dest") if isinstance(tj, dict) else None
+        reads({kk: v for kk, v in tj.items() if kk != "dest"} if isinstance(tj, dict) else tj)
+        if isinstance(dest, dict):
+            if dest.get("p"):
+                reads(dest)
+            else:
+                k.add(dest.get("l"))
+        use[b], kill[b] = u, k
+    live = {b: set(u) for b, u in use.items()}
     changed = True
-    order = sorted(own, reverse=True)
+    order = sorted(use, reverse=True)
     while changed:
         changed = False
         for b in order:
             acc = live[b]
             n0 = len(acc)
-            for s_ in fn.succs(b, with_unwind=True):
+            for s_ in fn.succs(b):          # (the event graph does not walk unwind edges)
                 if s_ in live:
-                    acc |= live[s_]
+                    acc |= (live[s_] - kill[b])
             if len(acc) != n0:
                 changed = True
     fn._mentioned_later = live
@@ -1270,6 +1294,7 @@ def event_graph(fn, role_of, ret_local=0, max_states=40000, branch_role=None, st
             continue
         for s2 in fn.succs(bb):
             work.append((s2, (src, frozenset(aliases), label, retv, decided, kb)))
+    g.n_states = n
     return g
 
 
